@@ -127,7 +127,8 @@ def eval_sem(ck, name, cases, recases=None):
         if p[0] == "C":
             res[int(p[1])] = {"fragment": p[2] == "1", "width": p[3] == "1", "ctx_ok": p[4] == "1", "text_ok": p[5] == "1",
                               "model_sel": p[6] == "1", "wrefs": p[7] == "1", "fragment2": p[8] == "1",
-                              "model_text": len(p) > 9 and p[9] == "1", "fragment3": len(p) > 10 and p[10] == "1", "dbs": []}
+                              "model_text": len(p) > 9 and p[9] == "1", "fragment3": len(p) > 10 and p[10] == "1",
+                              "ref_defined": len(p) <= 11 or p[11] == "1", "dbs": []}
         elif p[0] == "D":
             res[int(p[1])]["dbs"].append({"db_ok": p[3] == "1", "absent": p[4] == "1", "oracle": p[5] == "1",
                                           "impl": int(p[6]), "rev": int(p[7]), "model": int(p[8]), "same": p[9] == "1",
@@ -248,10 +249,16 @@ def run_semantic(ck, text_cases, recases=None):
     nontrivial = set()
     not_text_ok, machinery, undecided, violations, findings_hit = [], [], [], [], {}
     theorem_evals = 0
+    no_reference = []
     per_class = {}     # class -> [guarded evaluations, non-trivial ones, evaluations where the reference keeps a line]
     for cid, v in res.items():
         c = byid[cid]
         if not v["ctx_ok"]:
+            continue
+        if not v["ref_defined"]:
+            # a line_format template without a reference value (field chains, pipes, the dot ...): run_lstages answers None
+            # for every line; "no line" is not an expectation. Reached only through queries whose TEXT left the model.
+            no_reference.append(c["query"])
             continue
         in_thm = v["fragment"] or v["fragment2"] or v["fragment3"]
         dev = None if in_thm else stage_deviation(c.get("stages"))
@@ -351,6 +358,7 @@ def run_semantic(ck, text_cases, recases=None):
     ck.extra["sem_cases"] = {"evaluated_cases": len(res), "skipped": skipped,
                              "origins": {o: sum(1 for i in res if origin.get(i) == o) for o in ("gen", "text", "corpus")},
                              "guarded_evaluations": theorem_evals,
+                             "not_judged (a line_format template without a reference value)": len(no_reference),
                              "guarded_evaluations_per_class [all, reference keeps some lines and drops others, reference keeps a line]": per_class,
                              "finding_hits": {k: len(x) for k, x in findings_hit.items()}}
     samples = []
